@@ -24,16 +24,23 @@ def minByFst : List (Nat × EOp) → Nat × EOp
 /-- may `x` be substituted by `y` (they differ)? -/
 def canReplace (fl : EFlags) (x y : List Nat) : Bool := !fl.sid || (!isWsCl x && !isWsCl y)
 
-/-- the candidate list of cell `(i+1, j+1)`; `x = a[i]`, `y = b[j]`, `x' = a[i-1]`, `y' = b[j-1]` -/
+/-- keep (equal characters) or replace (different, and allowed) -/
+def candDiag (fl : EFlags) (x y : List Nat) (dDiag : Nat) : List (Nat × EOp) :=
+  if x == y then [(dDiag, EOp.keep)]
+  else if canReplace fl x y then [(dDiag + 1, EOp.replace)] else []
+
+/-- adjacent transposition: `x = a[i]`, `x' = a[i-1]` against `y' = b[j-1]`, `y = b[j]` -/
+def candSwap (fl : EFlags) (x y : List Nat) (x' y' : Option (List Nat)) (dSwap : Nat) : List (Nat × EOp) :=
+  match x', y' with
+  | some u, some v =>
+    if fl.swap && x == v && u == y && canReplace fl x u then [(dSwap + 1, EOp.swap)] else []
+  | _, _ => []
+
+/-- the candidate list of cell `(i+1, j+1)` in the order the code pushes it:
+delete, insert, keep/replace, swap; `x = a[i]`, `y = b[j]`, `x' = a[i-1]`, `y' = b[j-1]` -/
 def candidates (fl : EFlags) (x y : List Nat) (x' y' : Option (List Nat))
     (dUp dLeft dDiag : Nat) (dSwap : Nat) : List (Nat × EOp) :=
-  let c0 := [(dUp + 1, EOp.delete), (dLeft + 1, EOp.insert)]
-  let c1 := if x == y then c0 ++ [(dDiag, EOp.keep)]
-            else if canReplace fl x y then c0 ++ [(dDiag + 1, EOp.replace)] else c0
-  match x', y' with
-  | some x', some y' =>
-    if fl.swap && x == y' && x' == y && canReplace fl x x' then c1 ++ [(dSwap + 1, EOp.swap)] else c1
-  | _, _ => c1
+  (dUp + 1, EOp.delete) :: (dLeft + 1, EOp.insert) :: (candDiag fl x y dDiag ++ candSwap fl x y x' y' dSwap)
 
 def stepCell (fl : EFlags) (a b : List (List Nat)) (get : Nat → Nat → Nat × EOp) : Nat → Nat → Nat × EOp
   | 0, 0 => (0, .keep)
